@@ -45,7 +45,7 @@ def background_axioms(ct: V.ClassTable) -> list:
     v = z3.Const("v!", Val)
     w = z3.Const("w!", Val)
     ax = [
-        z3.ForAll([l], tup_len(l) >= 0, patterns=[tup_len(l)]),
+        z3.ForAll([l], z3.And(tup_len(l) >= 0, (tup_len(l) == 0) == V.is_nil(l)), patterns=[tup_len(l)]),
         z3.ForAll([s], str_len(s) >= 0, patterns=[str_len(s)]),
         z3.ForAll([v], py_eq(v, v), patterns=[py_eq(v, v)]),          # S6 reflexive ==
     ]
